@@ -80,6 +80,58 @@ fn gen_family(rng: &mut Rng, tier: Tier, n: usize, family: u16) -> Case {
     c
 }
 
+/// class 4: every column a rational unit vector, taken from an exact rotation
+/// matrix, with the last column replaced by a unit combination a*c0 + b*c_last
+/// (a^2 + b^2 = 1): looks orthonormal under any test that forgets one pair, is
+/// an invertible shear (or, for a = +-1, singular / for a = 0 a rotation).
+fn gen_unit_columns(rng: &mut Rng, n: usize) -> Case {
+    use cgv_core::q::Q;
+    let mut c = Case::new();
+    c.class = 4;
+    let q = gen::unit_quat(rng, Tier::Quick);
+    let qq: [Q; 4] = [Q::rat(q[0]), Q::rat(q[1]), Q::rat(q[2]), Q::rat(q[3])];
+    let m3 = qmat(qq);
+    let [a, b] = gen::unit_vec2(rng, Tier::Quick);
+    let (qa, qb) = (Q::rat(a), Q::rat(b));
+    let f = |x: Q| Rat::new(x.num() as i64, x.den() as i64);
+    let mut cols: Vec<Vec<Rat>> = vec![];
+    match n {
+        2 => {
+            let [c0, s0] = gen::unit_vec2(rng, Tier::Quick);
+            cols.push(vec![c0, s0]);
+            // second column: unit, generally not orthogonal to the first
+            let [c1, s1] = gen::unit_vec2(rng, Tier::Quick);
+            cols.push(vec![c1, s1]);
+        }
+        3 => {
+            for col in 0..3 {
+                cols.push((0..3).map(|r| f(m3[col][r])).collect());
+            }
+            cols[2] = (0..3).map(|r| f(qa * m3[0][r] + qb * m3[2][r])).collect();
+        }
+        _ => {
+            for col in 0..3 {
+                let mut v: Vec<Rat> = (0..3).map(|r| f(m3[col][r])).collect();
+                v.push(Rat::int(0));
+                cols.push(v);
+            }
+            cols.push(vec![Rat::int(0), Rat::int(0), Rat::int(0), Rat::int(1)]);
+            // shear the w column into the x column: unit, orthogonal to y and z, not to x
+            cols[3] = (0..4).map(|r| if r < 3 { f(qa * m3[0][r]) } else { b }).collect();
+        }
+    }
+    // random column order
+    for i in (1..n).rev() {
+        let j = rng.below(i as u64 + 1) as usize;
+        cols.swap(i, j);
+    }
+    for col in &cols {
+        c.push_r(col);
+    }
+    c.nontrivial = true;
+    c
+}
+
 fn gen_n(rng: &mut Rng, tier: Tier, n: usize) -> Case {
     let (v, nt) = gen::rats(rng, tier, n);
     let mut c = Case::new();
@@ -95,12 +147,16 @@ macro_rules! dim {
             const N: usize = $N;
 
             pub fn g_inv(rng: &mut Rng, tier: Tier) -> Case {
-                let fam = match rng.below(12) {
+                let fam = match rng.below(14) {
                     0..=4 => 0,
                     5..=7 => 1,
                     8..=9 => 2,
-                    _ => 3,
+                    10..=11 => 3,
+                    _ => 4,
                 };
+                if fam == 4 {
+                    return super::gen_unit_columns(rng, N);
+                }
                 if fam == 3 {
                     // well-conditioned matrix scaled by 2^-k: determinant far below
                     // machine epsilon yet exactly non-zero (unless the base is singular)
@@ -319,11 +375,11 @@ fn hist4<S: Sc>(c: &Case, k: &mut Ck<S>) {
 
 pub fn clauses() -> Vec<Clause> {
     vec![
-        clause!("invert2", EP_INV, d2::g_inv, inv2, weight = 1.0, classes = 4),
-        clause!("invert3", EP_INV, d3::g_inv, inv3, weight = 1.0, classes = 4),
-        clause!("invert4", EP_INV, d4::g_inv, inv4, weight = 1.0, classes = 4),
-        clause!("inverse_transform3", EP_XF, d3::g_inv, ixf3, weight = 0.5, classes = 4),
-        clause!("inverse_transform4", EP_XF, d4::g_inv, ixf4, weight = 0.5, classes = 4),
+        clause!("invert2", EP_INV, d2::g_inv, inv2, weight = 1.0, classes = 5),
+        clause!("invert3", EP_INV, d3::g_inv, inv3, weight = 1.0, classes = 5),
+        clause!("invert4", EP_INV, d4::g_inv, inv4, weight = 1.0, classes = 5),
+        clause!("inverse_transform3", EP_XF, d3::g_inv, ixf3, weight = 0.5, classes = 5),
+        clause!("inverse_transform4", EP_XF, d4::g_inv, ixf4, weight = 0.5, classes = 5),
         clause!("det_laws2", EP_DET, d2::g_two, det2),
         clause!("det_laws3", EP_DET, d3::g_two, det3),
         clause!("det_laws4", EP_DET, d4::g_two, det4),
@@ -333,7 +389,7 @@ pub fn clauses() -> Vec<Clause> {
     ]
 }
 
-pub const RULE: &str = "square matrices of small rationals in three families decided by the generator: class 0 generic, class 1 exactly singular by construction (one column an integer combination of the others, sometimes rank n-2, random column order and transposition), class 2 the same with one entry perturbed by +-10^-9..10^-12 (tiny determinant, exact in Q), class 3 a generic matrix scaled by 2^-8..2^-24 (determinant down to 2^-96, far below machine epsilon, exactly non-zero); mutation histories are 1-8 random swap_rows/swap_columns/swap_elements/replace_col/transpose_self steps with all index pairs including equal ones; non-trivial = all entries non-zero and pairwise distinct (class 0) or any constructed singular/near-singular matrix; distinct = distinct input tuples per clause.";
+pub const RULE: &str = "square matrices of small rationals in three families decided by the generator: class 0 generic, class 1 exactly singular by construction (one column an integer combination of the others, sometimes rank n-2, random column order and transposition), class 2 the same with one entry perturbed by +-10^-9..10^-12 (tiny determinant, exact in Q), class 4 matrices whose columns are all rational unit vectors from an exact rotation with one column sheared towards another (orthonormal-looking but not orthogonal), class 3 a generic matrix scaled by 2^-8..2^-24 (determinant down to 2^-96, far below machine epsilon, exactly non-zero); mutation histories are 1-8 random swap_rows/swap_columns/swap_elements/replace_col/transpose_self steps with all index pairs including equal ones; non-trivial = all entries non-zero and pairwise distinct (class 0) or any constructed singular/near-singular matrix; distinct = distinct input tuples per clause.";
 pub const ASSUME: &[&str] = &[
     "exact rational arithmetic in i128; a case that overflows i128 is re-run with intervals or counted inconclusive, never judged",
     "undefined behaviour of the unsafe helpers is judged by the Miri workload (thorough tier here, quick tier under C16), not by the value monitors",
